@@ -175,6 +175,13 @@ def step(ins, regs):
         return algopy.symvec(a + a.T, ins[2])
     if op == 'vecsym':
         return algopy.vecsym(regs[ins[1]])
+    if op == 'symvec_raw':    # of a square matrix that is NOT symmetric: UPLO selects the triangle / 'F' symmetrises
+        return algopy.symvec(regs[ins[1]], ins[2])
+    if op == 'rpowc':         # constant ** x  (plain ndarray / scalar base)
+        return ins[2] ** regs[ins[1]]
+    if op == 'eigh_raw':      # eigh of a register that is symmetric up to rounding (product a s a^T), eigenvalues or Q f(lam) Q^T
+        lam, Q = algopy.eigh(regs[ins[1]])
+        return lam if ins[2] == 0 else algopy.dot(Q * algopy.sin(lam), Q.T)
     # ---- forward-only operations (no tracer support / no pullback) ----
     if op == 'minmax':
         return getattr(algopy, ins[1])(regs[ins[2]], regs[ins[3]])
@@ -331,6 +338,20 @@ def precond(ins, regs):
             if op == 'symvec':
                 return True
             return bool(_gaps(np.linalg.eigvalsh(m + m.T)) >= 0.3)
+        if op == 'symvec_raw':
+            m = np.asarray(regs[ins[1]])
+            return m.ndim == 2 and m.shape[0] == m.shape[1] and not _is_cplx(m)
+        if op == 'rpowc':
+            a, c = np.asarray(regs[ins[1]]), np.asarray(ins[2])
+            np.broadcast_shapes(a.shape, c.shape)
+            return not _is_cplx(a) and bool(np.all(c >= 0.3) and np.all(np.abs(a) <= 3))
+        if op == 'eigh_raw':
+            m = np.asarray(regs[ins[1]])
+            if m.ndim != 2 or m.shape[0] != m.shape[1] or _is_cplx(m):
+                return False
+            if np.max(np.abs(m - m.T)) > 1e-13 * max(1.0, np.max(np.abs(m))):
+                return False
+            return bool(_gaps(np.linalg.eigvalsh(0.5 * (m + m.T))) >= 0.3)
         if op == 'minmax':
             a, b = np.asarray(regs[ins[2]]), np.asarray(regs[ins[3]])
             return a.shape == b.shape and not _is_cplx(a) and not _is_cplx(b) and (KINKS_OK[0] or bool(np.all(np.abs(a - b) >= 0.05)))
@@ -396,7 +417,7 @@ def _magnitude_ok(v):
 FAMILIES_ALL = ['un', 'un', 'kink', 'special', 'unp', 'bin', 'bin', 'bcast', 'binc', 'binc', 'pow', 'neg', 'get', 'get', 'T', 'reshape',
                 'buf', 'set', 'set', 'rmw', 'rmw', 'sum', 'prod', 'trace', 'dot', 'dot', 'dotc', 'outer', 'inv', 'solve', 'det',
                 'logdet', 'qr', 'chol', 'eigh', 'svd', 'lu', 'fft', 'tile', 'diag', 'symvec']
-FAMILIES_FWD_ONLY = ['unfwd', 'minmax', 'tri', 'abs', 'expm', 'svdfull', 'umax', 'powreg', 'iop', 'solvec', 'shift']
+FAMILIES_FWD_ONLY = ['unfwd', 'minmax', 'tri', 'abs', 'expm', 'svdfull', 'umax', 'powreg', 'iop', 'solvec', 'shift', 'rpowc', 'eighraw']
 FAMILIES_POLY = ['un', 'bin', 'bin', 'bcast', 'binc', 'binc', 'pow', 'neg', 'get', 'get', 'T', 'reshape', 'buf', 'set', 'rmw', 'sum', 'prod',
                  'trace', 'dot', 'dot', 'dotc', 'outer', 'tile', 'diag']
 
@@ -586,7 +607,7 @@ FIRST_INPUT = {'inv': 'regular', 'det': 'regular', 'logdet': 'posdet', 'solve': 
                'chol': 'square', 'eigh': 'gapsym', 'svd': 'svd', 'trace': 'matrix', 'T': 'matrix', 'diag': 'vecorsquare',
                'symvec': 'square', 'outer': 'vector', 'dot': 'vecormat', 'dotc': 'vecormat', 'prod': 'vector', 'tile': 'vecormat',
                'sum': 'vecormat', 'reshape': 'vecormat', 'get': 'vecormat', 'fft': 'vecormat', 'tri': 'matrix',
-               'expm': 'square', 'svdfull': 'svd', 'minmax': 'vecormat', 'umax': 'vector', 'kink': 'awayzero', 'abs': 'awayzero', 'pow': 'withzeros', 'special': 'unitinterval', 'unp': 'unitinterval', 'unfwd': 'unitinterval', 'dotnd': 'cube', 'eig': 'realeig', 'powreg': 'unitinterval', 'solvec': 'regular', 'iop': 'vecormat'}
+               'expm': 'square', 'svdfull': 'svd', 'minmax': 'vecormat', 'umax': 'vector', 'kink': 'awayzero', 'abs': 'awayzero', 'pow': 'withzeros', 'special': 'unitinterval', 'unp': 'unitinterval', 'unfwd': 'unitinterval', 'dotnd': 'cube', 'eig': 'realeig', 'powreg': 'unitinterval', 'solvec': 'regular', 'iop': 'vecormat', 'rpowc': 'vecormat', 'eighraw': 'square', 'vec2lin': 'vecgapsym'}
 
 
 @st.composite
@@ -618,6 +639,15 @@ def _special_input(draw, first, K, max_side):
             a = draw(gen.float_array((n, n), elems, sparse=False))
             mats.append(0.5 * sym + 0.5 * (a - a.T))      # m + m^T == sym
         return np.array(mats)
+    if kind == 'vecgapsym':
+        # a vector of n*n entries whose (n,n) reshape m has m + m^T with well separated eigenvalues (histories: single 1-D input)
+        n = draw(st.sampled_from([2, 2, 3]))
+        vecs = []
+        for k in range(K):
+            sym = draw(gen.symmetric_distinct(n, gap=0.4))
+            a = draw(gen.float_array((n, n), elems, sparse=False))
+            vecs.append((0.5 * sym + 0.5 * (a - a.T)).reshape(n * n))
+        return np.array(vecs)
     if kind == 'realeig':
         # V diag(lam) V^-1 with real separated eigenvalues and a well-conditioned eigenvector matrix
         mats = []
@@ -986,7 +1016,7 @@ def _emit_family_impl(draw, S, fam, allow_set_broadcast=True, allow_ndim_dot=Fal
                 return S.try_emit(['eigh_fun', a])
             return S.try_emit(['eigh_sym', a, 0 if kind == 'val' else 1])
         if fam == 'symvec':
-            return S.try_emit(['symvec', a, draw(st.sampled_from(['F', 'L', 'U']))])
+            return S.try_emit([draw(st.sampled_from(['symvec', 'symvec_raw', 'symvec_raw'])), a, draw(st.sampled_from(['F', 'L', 'U']))])
         if fam == 'chol':
             return S.try_emit(['chol_spd', a, draw(st.sampled_from([1.0, 0.5, 2.0]))])
         return S.try_emit([fam, a])
@@ -1140,6 +1170,45 @@ def _emit_family_impl(draw, S, fam, allow_set_broadcast=True, allow_ndim_dot=Fal
         if a is None:
             return False
         return S.try_emit(['tri', draw(st.sampled_from(['triu', 'tril'])), a, draw(st.sampled_from([0, 0, 1, -1]))])
+    if fam == 'vec2lin':
+        # vector -> square matrix -> factorisation (programs with a single 1-D input, e.g. the histories of C06)
+        a = _pick(draw, S, lambda r: S.ndim(r) == 1 and S.shape(r)[0] in (4, 9) and real(r))
+        if a is None:
+            return False
+        n = 2 if S.shape(a)[0] == 4 else 3
+        if not S.try_emit(['reshape', a, (n, n)]):
+            return False
+        m = S.nreg() - 1
+        for kind in draw(st.permutations(['eigh_fun', 'eigh_fun', 'eigh_val', 'chol', 'det', 'inv'])):
+            ins = {'eigh_fun': ['eigh_fun', m], 'eigh_val': ['eigh_sym', m, 0], 'chol': ['chol_spd', m, 1.0], 'det': ['det', m], 'inv': ['inv', m]}[kind]
+            if S.try_emit(ins):
+                return True
+        return False
+    if fam == 'rpowc':
+        a = _pick(draw, S, lambda q: real(q) and all(np.all(np.abs(np.asarray(S.regs[k][q])) <= 3) for k in range(S.K)))
+        if a is None:
+            return False
+        kind = draw(st.sampled_from(['array', 'array', '0d', 'scalar', 'row']))
+        shp = S.shape(a)
+        el = st.sampled_from([0.5, 2.0, 1.5, 3.0, 1.0, 0.75, 2.5])
+        if kind == 'scalar':
+            c = draw(el)
+        elif kind == '0d' or not shp:
+            c = np.array(draw(el))
+        elif kind == 'row':
+            c = np.array([draw(el) for _ in range(shp[-1])])
+        else:
+            c = np.array([draw(el) for _ in range(int(np.prod(shp)))]).reshape(shp)
+        return S.try_emit(['rpowc', a, c])
+    if fam == 'eighraw':
+        # a s a^T with s = a + a^T: symmetric as a polynomial, but only up to rounding in floating point
+        a = _pick(draw, S, lambda r: S.ndim(r) == 2 and S.shape(r)[0] == S.shape(r)[1] and real(r))
+        if a is None:
+            return False
+        n0 = S.nreg()
+        if not (S.try_emit(['T', a]) and S.try_emit(['bin', 'add', a, n0]) and S.try_emit(['dot', a, n0 + 1]) and S.try_emit(['dot', n0 + 2, n0])):
+            return False
+        return S.try_emit(['eigh_raw', n0 + 3, draw(st.sampled_from([0, 1]))])
     if fam == 'abs':
         a = _pick(draw, S, lambda q: real(q) and all(precond(['abs', q], S.regs[k]) for k in range(S.K)))
         if a is None:
@@ -1302,7 +1371,9 @@ def features(case):
                 f.add('real-pow')
         if op in ('dot', 'dotc', 'outer'):
             f.add(op)
-        if op in ('inv', 'solve', 'det', 'logdet', 'qr', 'qr_full', 'chol_spd', 'eigh_sym', 'eigh_fun', 'svd_s', 'lu', 'expm', 'svd_full', 'eig_val'):
+        if op in ('symvec_raw', 'rpowc'):
+            f.add(op)
+        if op in ('inv', 'solve', 'det', 'logdet', 'qr', 'qr_full', 'chol_spd', 'eigh_sym', 'eigh_fun', 'svd_s', 'lu', 'expm', 'svd_full', 'eig_val', 'eigh_raw'):
             f.add('linalg')
             f.add('linalg:' + op)
         if op in ('fft', 'ifft'):
@@ -1310,7 +1381,7 @@ def features(case):
         if op in ('reshape', 'T', 'tile', 'diag', 'symvec', 'sum', 'prod', 'trace'):
             f.add(op)
         if op == 'un' and ins[1] in UN_NONLINEAR or op in ('unp', 'pow', 'powreg', 'dot', 'outer', 'inv', 'solve', 'det', 'logdet', 'prod', 'qr', 'qr_full',
-                                                          'chol_spd', 'eigh_sym', 'eigh_fun', 'svd_s', 'svd_full', 'lu', 'expm', 'eig_val', 'solvec') \
+                                                          'chol_spd', 'eigh_sym', 'eigh_fun', 'svd_s', 'svd_full', 'lu', 'expm', 'eig_val', 'solvec', 'rpowc', 'eigh_raw') \
                 or (op == 'bin' and ins[1] in ('mul', 'div')) or (op == 'binc' and ins[1] == 'div' and ins[4] == 'l'):
             f.add('nonlinear')
     f.add('len=%d' % min(len(prog), 12))
